@@ -4,16 +4,17 @@
    sqrt(q) - (r1 + r2) are compared exactly by squaring (Less). *)
 EXTENDS Overlap, TLC, Json
 
-CONSTANTS L, Dim, Periodic, Radii, MaxN, M
+CONSTANTS L, Dim, Periodic, Radii, MaxN, M,
+          OpenAxes     \* axes that are NOT periodic although Periodic = TRUE (mixed periodicity masks)
 Neg1 == 0 - 1
 Neg2 == 0 - 2
 
 Pos == [1..Dim -> 0..(L - 1)]
 DropSet == [p : Pos, r : Radii]
 Abs(x) == IF x < 0 THEN 0 - x ELSE x
-MD(a, b) == LET d == Abs(a - b) IN IF Periodic /\ L - d < d THEN L - d ELSE d
+MDA(a, b, i) == LET d == Abs(a - b) IN IF Periodic /\ i \notin OpenAxes /\ L - d < d THEN L - d ELSE d
 RECURSIVE SumSq(_, _, _)
-SumSq(a, b, i) == IF i = 0 THEN 0 ELSE MD(a[i], b[i]) * MD(a[i], b[i]) + SumSq(a, b, i - 1)
+SumSq(a, b, i) == IF i = 0 THEN 0 ELSE MDA(a[i], b[i], i) * MDA(a[i], b[i], i) + SumSq(a, b, i - 1)
 Q(a, b) == SumSq(a.p, b.p, Dim)
 
 \* sqrt(q1) - s1 < sqrt(q2) - s2, integers, q >= 0
